@@ -138,6 +138,8 @@ class TwoEndedLink(link.Link):
         if (new is not None) and (self not in new.links):
             new.add_to_link(self)
 
+        self._qa_invalidate_ends(old)
+
     def other(self, end: Vertex) -> Vertex | None:
         """
         Identify and return the other end of this edge.
